@@ -11,17 +11,6 @@ Definition pobs_same (a b : pobs) : bool :=
   | _, _ => false
   end.
 
-Definition entry_ok (kv : str * str) : bool := name_ok (fst kv) && negb (has_bar (snd kv)).
-
-Fixpoint keys_distinct (ps : params) : bool :=
-  match ps with
-  | [] => true
-  | (k, _) :: r => negb (existsb (fun kv => str_eqb k (fst kv)) r) && keys_distinct r
-  end.
-
-Definition media_char_ok (c : Z) : bool :=
-  negb (c =? CH_QMARK) && negb (c =? CH_EQ) && negb (c =? CH_BAR) && negb (c =? CH_COLON).
-
 (* ---- any input string: parsed or rejected, never a panic; an accepted uri survives printing ----- *)
 
 Definition holds_parse_any (s : str) (r1 : pobs) (d : dobs) (r2 : pobs) : bool :=
@@ -34,25 +23,6 @@ Definition holds_parse_any (s : str) (r1 : pobs) (d : dobs) (r2 : pobs) : bool :
   end.
 
 (* ---- a string of the URI grammar parses to exactly its prefix, media and parameters ------------ *)
-
-Definition spec_join (kvs : params) : str :=
-  match kvs with
-  | [] => []
-  | kv :: r => [CH_QMARK] ++ fst kv ++ [CH_EQ] ++ snd kv
-               ++ List.concat (map (fun kv => [CH_BAR] ++ fst kv ++ [CH_EQ] ++ snd kv) r)
-  end.
-
-Definition spec_uri (prefix media : str) (kvs : params) : str :=
-  (if is_empty prefix then [] else prefix ++ [CH_COLON]) ++ P_AERON ++ [CH_COLON] ++ media ++ spec_join kvs.
-
-Definition grammar_ok (prefix media : str) (kvs : params) : bool :=
-  (is_empty prefix || str_eqb prefix P_SPY)
-  && forallb media_char_ok media
-  && forallb entry_ok kvs
-  && (match kvs with [] => str_eqb media P_UDP || str_eqb media P_IPC | _ => true end).
-
-(* a later occurrence of a key replaces an earlier one *)
-Definition last_wins (kvs : params) : params := fold_left (fun acc kv => insert (fst kv) (snd kv) acc) kvs [].
 
 Definition holds_parse_valid (s prefix media : str) (kvs : params) (r1 : pobs) (d : dobs) (r2 : pobs) : bool :=
   if grammar_ok prefix media kvs && str_eqb s (spec_uri prefix media kvs) then
